@@ -222,6 +222,18 @@ func Yield() { gateAt("", nil) }
 // recorded schedule by "?:"+point, a named thread by name+":"+point.
 func YieldAt(point string) { gateAt(point, nil) }
 
+// AtGate is YieldAt(point) followed by f with nothing in between: f must not contain a
+// scheduling point of its own. Natively f runs while the gate is held, so the order of the f's of
+// different threads is exactly the recorded order of gate passages.
+func AtGate(point string, f func()) {
+	if Symbolic() {
+		YieldAt(point)
+		f()
+		return
+	}
+	gateAt(point, f)
+}
+
 func gate(f func()) { gateAt("", f) }
 
 // gateAt waits for the calling thread's turn and runs f (if any) before the next thread may pass.
